@@ -172,17 +172,21 @@ func VerifH_C19_layout() {
 	} else {
 		a, b, c := vU64("a"), vU64("b"), vU64("c")
 		// the first group is not capped: sequence numbers beyond 10^9 keep all their digits
-		vAssume(vAnd(a < 1<<22, vAnd(b < 1000, c < 1000)))
+		vAssume(vAnd(a < 1<<14, vAnd(b < 1000, c < 1000)))
 		n = a*1000000 + b*1000 + c
 		vAssume(n != 0)
 		want = fmt.Sprintf("%s/replication/%s/%03d/%03d/%03d.state.txt", e.base, dir, a, b, c)
 	}
 	digits, fileSeq := c19Digits(1 + 3*vRange("seqDigits", 0, vParam("maxDigitClass", 1)))
 	stamp := time.Date(2016, 7, 2, 22, 46, 1, 0, time.UTC)
+	noNL := vRange("noTrailingNewline", 0, 1) == 1 // the last line of a state file need not end in a newline
 	var st *State
 	var err error
 	if kind == 3 {
 		e.body = []byte("---\nlast_run: 2016-07-02 22:46:01.000000000 Z\nsequence: " + digits + "\n")
+		if noNL {
+			e.body = e.body[:len(e.body)-1]
+		}
 		if current {
 			_, st, err = e.ds.CurrentChangesetState(context.Background())
 		} else {
@@ -190,6 +194,9 @@ func VerifH_C19_layout() {
 		}
 	} else {
 		e.body = []byte("#Sat Jul 02 22:46:01 UTC 2016\nsequenceNumber=" + digits + "\ntxnMaxQueried=123\ntimestamp=2016-07-02T22\\:46\\:01Z\ntxnMax=456\n")
+		if noNL {
+			e.body = e.body[:len(e.body)-1]
+		}
 		switch kind {
 		case 0:
 			if current {
